@@ -20,6 +20,7 @@ import (
 	"math/rand"
 	"os"
 	"os/exec"
+	"sort"
 	"strconv"
 	"strings"
 	"sync"
@@ -288,6 +289,7 @@ func main() {
 	var wg sync.WaitGroup
 	var mu sync.Mutex
 	hangs := 0
+	var durs []time.Duration
 	next := make(chan int)
 	for w := 0; w < *par; w++ {
 		wg.Add(1)
@@ -301,16 +303,40 @@ func main() {
 				if stop {
 					continue
 				}
-				t := *timeoutMs
-				if cases[i].Tmo > 0 {
-					t = cases[i].Tmo
+				// adaptive timeout: 300 x the median duration of the completed cases, at least 4 s, at most the
+				// -timeout flag (the machine may be heavily loaded); a per-case tmo lowers the cap
+				capMs := *timeoutMs
+				if cases[i].Tmo > 0 && cases[i].Tmo < capMs {
+					capMs = cases[i].Tmo
 				}
+				mu.Lock()
+				t := capMs
+				if len(durs) >= 8 {
+					d := append([]time.Duration{}, durs...)
+					sort.Slice(d, func(a, b int) bool { return d[a] < d[b] })
+					if m := int(d[len(d)/2].Milliseconds()) * 300; m < t {
+						t = m
+					}
+					if t < 4000 {
+						t = 4000
+					}
+					if t > capMs {
+						t = capMs
+					}
+				}
+				mu.Unlock()
+				start := time.Now()
 				results[i], ch = ch.run(cases[i], time.Duration(t)*time.Millisecond)
+				mu.Lock()
 				if e := results[i].Got.Err; e == "hang" || e == "crash" {
-					mu.Lock()
 					hangs++
-					mu.Unlock()
+				} else {
+					durs = append(durs, time.Since(start))
+					if len(durs) > 60 {
+						durs = durs[len(durs)-60:]
+					}
 				}
+				mu.Unlock()
 			}
 			ch.kill()
 		}()
